@@ -88,3 +88,25 @@ def fresh_slotted_pair():
     setattr(mod, item.__name__, item)
     setattr(mod, weighted.__name__, weighted)
     return item, weighted
+
+
+class PLabel(object):
+    """A domain object used as a node's name / attribute value that knows 'its' node (back-reference into the tree)."""
+
+    def __init__(self, text):
+        self.text = text
+        self.node = None
+
+    def __str__(self):
+        return self.text
+
+    __repr__ = __str__
+
+    def __eq__(self, other):
+        return isinstance(other, PLabel) and other.text == self.text
+
+    def __ne__(self, other):
+        return not self == other
+
+    def __hash__(self):
+        return hash(self.text)
